@@ -222,24 +222,42 @@ def gen_scope(g, chain, depth, has_index, in_grange=False, want_index=False, ele
         # every member is parsed from the same start; build writes the first one present: marker + one probe-bearing struct
         add_probes(draw(st.integers(1, 2)))
         sub_members = members[1:]
-        spec = ["union", None, [marker] + sub_members]
+        # parsefrom: nothing, or a context expression in the Union's own scope (it sees the members just parsed) that picks the
+        # member the stream is left behind by its position
+        pf = None
+        if mform == "plain" and not mname.startswith("_") and draw(st.integers(0, 2)) == 0:
+            ref = ["this", [mname], draw(st.sampled_from(["attr", "item"]))]
+            pf = draw(st.sampled_from([["bin", "*", ref, ["const", 0]], ["bin", "%", ref, ["const", 1 + len(sub_members)]]]))
+            if draw(st.booleans()):
+                pf = ["lam", "py", pf]
+            g.labels.add("union/parsefrom-expression")
+        spec = ["union", pf, [marker] + sub_members]
         # build from the marker only (first member that has a key)
         return spec, {mname: mval if mform == "plain" else None}, here
     add_probes(draw(st.integers(1 if want_index else 0, 2)))
-    if depth > 1 and kind != "lazystruct" and not (kind == "fseq" and mform == "plain") and draw(st.integers(0, 4)) != 0:
+    if depth > 1 and not (kind == "fseq" and mform == "plain") and draw(st.integers(0, 4)) != 0:
         cname = g.name("c")
         rep = draw(st.sampled_from(["none", "none", "array", "arrayk", "grange", "grange", "runtil"] if not fixed_layout else ["none", "none", "array"]))
+        if kind == "lazystruct":
+            # a scope nested in a LazyStruct is first measured (with the context of the parse going on) and parsed when accessed:
+            # what it reads from the context - the mode flags included - must be the same both times
+            rep = "none"
         # discard=True: the elements are processed (their references must resolve as ever, _index must keep counting) but not kept
         discard = rep != "none" and draw(st.integers(0, 3 if rep != "grange" else 1)) == 0
         if rep == "none":
             # a nested scope of fixed layout (references decide values only) can sit inside a SIZED transforming region
             fixed_child = fixed_layout or (kind != "fseq" and draw(st.integers(0, 5)) == 0)
-            cs, cv, _ = gen_scope(g, here, depth - 1, hi, in_grange, fixed_layout=fixed_child)
+            if kind == "lazystruct":
+                # (no repetition index in there: the enclosing repetition has moved on by the time the scope is parsed, and a size
+                #  that depends on an index cannot be measured)
+                cs, cv, _ = gen_scope(g, here, 1, 0, in_grange, fixed_layout=fixed_child)
+            else:
+                cs, cv, _ = gen_scope(g, here, depth - 1, hi, in_grange, fixed_layout=fixed_child)
             seeking = any(n[0] in ("union", "lazystruct", "grange") for n in G.walk(cs))     # (no seeking inside a bit-level region)
             # (Bitwise sizes its inner construct when it is created: no _index then, and a layout that depends on the mode flags has
             #  one size while sizing and another while building - an ill-formed fixed-size region, not a library matter)
             sizing_index = any(nm in ("_index", "_parsing", "_building", "_sizing") for e, _ in G.exprs_in(cs) for nm in _names_in(e))
-            if (draw(st.integers(0, 2)) == 0 or (fixed_child and not fixed_layout)) and kind != "fseq" and not seeking and not sizing_index:
+            if (draw(st.integers(0, 2)) == 0 or (fixed_child and not fixed_layout)) and kind not in ("fseq", "lazystruct") and not seeking and not sizing_index:
                 # the nested scope behind two transforming layers that cancel out (bits of bytes of bits): the context must pass
                 # through Transformed (sized scope) or Restreamed (unsized scope) untouched
                 cs = ["bitwise", ["bytewise", cs]]
@@ -437,7 +455,7 @@ def oracle_factory(ctx):
 
 
 def campaign_shapes(ctx):
-    ctx.search(cases(), oracle_factory(ctx), ctx.budget(24000, 400000))
+    ctx.search(cases(), oracle_factory(ctx), ctx.budget(60000, 600000))
 campaign_shapes.shards = (6, 16)
 
 
